@@ -264,6 +264,26 @@ def x_Assign(E, node, st):
             for c in cur:
                 nxt.extend(assign_target(E, t, v, c))
             cur = nxt
+        # `obj.f = x` / `d[k] = x` with a local container x: from now on x and the stored place are ONE object in Python.  The value
+        # model keeps them in step by re-binding the local to a write-through view of the place it was stored in.
+        if isinstance(node.value, ast.Name) and (isinstance(v, Empty) or (isinstance(v, SVal) and _container(v.ty))):
+            for t in node.targets:
+                if isinstance(t, (ast.Subscript, ast.Attribute)):
+                    out = []
+                    for c in cur:
+                        try:
+                            views = list(E.ev(_load(t), c))
+                        except OutsideSubset:
+                            views = []
+                        if len(views) == 1 and views[0][0] is c and isinstance(views[0][1], SVal) and views[0][1].origin is not None:
+                            c.env[node.value.id] = views[0][1]
+                            E.assumptions.add("a local container stored into an object field / container is a write-through alias of that place")
+                        else:
+                            c.note(f"local '{node.value.id}' stored at line {node.lineno}: later in-place mutation would not be tracked")
+                            c.env["__stored__:" + node.value.id] = SVal(None, NONE)
+                        out.append(c)
+                    cur = out
+                    break
         yield from cur
 
 
